@@ -45,10 +45,10 @@ End Arrays.
 
 (* ---- rank / layout dispatch of the torch functions ------------------------------- *)
 (* shape of the tensor handed in -> positions of the two spatial axes (counted in the input's
-   own rank).  2-D: (0,1).  3-D: channels first (1,2).  4-D: channels last iff last side < 5. *)
+   own rank).  2-D: (0,1) (last side >= 5).  3-D: channels first (1,2).  4-D: channels last iff last side < 5. *)
 Definition spatial_axes (shape : list Z) : option (nat * nat) :=
   match shape with
-  | [_; _] => Some (0%nat, 1%nat)
+  | [_; n] => if n <? 5 then None (* torch would take the last side for channels *) else Some (0%nat, 1%nat)
   | [_; _; n] => if n <? 5 then None (* outside the documented layouts *) else Some (1%nat, 2%nat)
   | [_; _; n; j] => if j <? 5 then Some (1%nat, 2%nat) else Some (2%nat, 3%nat)
   | _ => None
